@@ -13,6 +13,15 @@ def _one_scanner(job):
         rs, cfg, casegen = fam_matrix(rng, idx)
     else:
         rs, cfg, casegen = FAMILIES[fam](rng)
+    force = os.environ.get('FV_FORCE_BACKEND')
+    if force:
+        cfg.backend = force
+    if cfg.backend == 'c99':
+        cfg.tables = None
+        cfg.prefix = None
+        if cfg.bufsize is None:
+            small = getattr(casegen, 'small', True) and not cfg.reject
+            cfg.bufsize = rng.choice(rtgen.BUFSIZES) if small else 16384
     name = '%s_%d' % (tag, idx)
     b = rt.build_scanner(flex, src, work, name, rs, cfg, lex_seed=seed ^ 0x77)
     res = {'idx': idx, 'seed': seed, 'fam': fam, 'cfg': cfg.key(), 'build': b['status'], 'cases': [],
@@ -27,8 +36,20 @@ def _one_scanner(job):
         _rm(b)
         return res
     cfg.reject_machinery = bool(b['flags'].get('reject'))
+    if cfg.backend == 'c99' and cfg.reject_machinery and cfg.bufsize != 16384 and not getattr(cfg, 'small_reject_ok', False):
+        # YY_BUF_SIZE is a generation-time constant there: build again with a buffer the tokens fit in
+        _rm(b)
+        cfg.bufsize = 16384
+        b = rt.build_scanner(flex, src, work, name, rs, cfg, lex_seed=seed ^ 0x77)
+        res['build'] = b['status']; res['lex'] = b['lex']; res['opts'] = b['opts']; res['cfg'] = cfg.key()
+        if b['status'] != 'ok':
+            res['detail'] = (b.get('flex_stderr') or '') + (b.get('cc_output') or '')
+            _rm(b)
+            return res
     for k in range(ncases):
         c = casegen(rng, rs, cfg)
+        if cfg.backend == 'c99':
+            c['bufsize'] = cfg.bufsize      # a generation-time constant there
         if cfg.reject_machinery and not getattr(cfg, 'small_reject_ok', False):
             c['bufsize'] = 16384     # REJECT scanners cannot grow their buffer: tokens must fit
         if cfg.tables:
@@ -131,11 +152,12 @@ def _ops_case(kinds=None, small=True, nsrc=1, wrap=False):
                     eacts[j] = ['input']
         return dict(srcs=srcs, main=['lex'] * (nret + 2) + ['destroy'], acts=acts, wraps=wraps, eacts=eacts,
                     sched=rtgen.gen_sched(rng), bufsize=bufsize)
+    gen.small = small
     return gen
 
 
 def _backend(rng):
-    return rng.choice(['nr', 'nr', 'r'])
+    return rng.choice(['nr', 'nr', 'r', 'r', 'c99'])
 
 
 def _compressed(rng):
@@ -376,7 +398,8 @@ MATRIX_TOPTS = [['-Cem'], ['-Ce'], ['-Cm'], ['-C'], ['-Cf'], ['-CF'], ['-Cfe'], 
                 ['-CaF'], ['-Cam'], ['-Caem']]
 MATRIX = [(t, bits, inter, arr, be, tab)
           for t in range(len(MATRIX_TOPTS)) for bits in (8, 7) for inter in (None, True, False)
-          for arr in (False, True) for be in ('nr', 'r') for tab in (None, 'file')]
+          for arr in (False, True) for be in ('nr', 'r', 'c99') for tab in (None, 'file')
+          if not (be == 'c99' and tab)]       # serialized tables are only exercised through the default skeleton
 
 
 def fam_matrix(rng, idx):
